@@ -1,0 +1,60 @@
+//go:build verif
+
+// Contracts for package combinator (comment-only; read by /verif/govc).
+
+package combinator
+
+//@ import "sync/atomic"
+//@ import "github.com/opsidian/parsley/ast"
+//@ import "github.com/opsidian/parsley/ast/interpreter"
+//@ import "github.com/opsidian/parsley/data"
+//@ import "github.com/opsidian/parsley/parser"
+//@ import "github.com/opsidian/parsley/parsley"
+
+//@ props C01,C02,C03,C04,C06,C07
+//@ kindprops frame=C07,C14
+
+//@ -- Optional: the parser's results followed by the empty match at pos (E6)
+//@ closure Optional$1(ctx *parsley.Context, lrc data.IntMap, pos parsley.Pos) (n parsley.Node, cp data.IntSet, err parsley.Error)
+//@   captures (p parsley.Parser)
+//@   requires p != nil
+//@   include  parsley.Parser.Parse
+//@   ensures  [once;C01,C02] ncalls() == 1 && callarg[*parsley.Context](1, 1) == ctx && same(callarg[data.IntMap](1, 2), lrc) && callarg[parsley.Pos](1, 3) == pos
+//@   ensures  [E6;C01] n != nil && same(cp, callres[data.IntSet](1, 1)) && same(err, callres[parsley.Error](1, 2))
+//@   ensures  [E6-empty;C01] callres[parsley.Node](1, 0) == nil ==> same(n, ast.EmptyNode(pos))
+
+//@ -- SuppressError drops the error (by design it may return neither a node nor an error)
+//@ closure SuppressError$1(ctx *parsley.Context, lrc data.IntMap, pos parsley.Pos) (n parsley.Node, cp data.IntSet, err parsley.Error)
+//@   captures (p parsley.Parser)
+//@   requires p != nil
+//@   include  parsley.Parser.Parse except PC1
+//@   ensures  [once] ncalls() == 1 && same(n, callres[parsley.Node](1, 0)) && same(cp, callres[data.IntSet](1, 1)) && err == nil
+
+//@ pure func eof(ctx *parsley.Context, pos parsley.Pos) parsley.Pos = parsley.Eof(ctx.Reader(), pos)
+//@ -- what a combinator knows about an intermediate result / error at position pos
+//@ pure func resOK(ctx *parsley.Context, n parsley.Node, pos parsley.Pos) bool = n != nil ==> parsley.NodeOK(n) && (parsley.ListSpare(n) == 0 || freshid(parsley.ListArr(n))) && parsley.EndsWithin(n, pos, eof(ctx, pos))
+//@ pure func errOK(ctx *parsley.Context, e parsley.Error, pos parsley.Pos) bool = e != nil ==> pos <= e.Pos() && e.Pos() <= eof(ctx, pos) && e.Pos() <= parsley.GhostMaxFail
+//@ -- ghost state inside a running combinator: monotone marks moved on, floor and window are the combinator's own
+//@ pure func ghostIn(ctx *parsley.Context, lrc data.IntMap, pos parsley.Pos) bool = (old(parsley.GhostCurtailed) ==> parsley.GhostCurtailed) && parsley.GhostMaxFail >= old(parsley.GhostMaxFail) && parsley.GhostCalls > old(parsley.GhostCalls) && parsley.GhostFloorPos == pos && same(parsley.GhostFloorLrc, lrc) && parsley.GhostLo == pos && parsley.GhostHi == eof(ctx, pos)
+
+//@ -- Choice: the first parser that returns a node wins (E5)
+//@ closure Choice$1(ctx *parsley.Context, lrc data.IntMap, pos parsley.Pos) (n parsley.Node, cp data.IntSet, err parsley.Error)
+//@   captures (parsers []parsley.Parser)
+//@   requires len(parsers) >= 1 && forall k int :: 0 <= k && k < len(parsers) ==> parsers[k] != nil
+//@   include  parsley.Parser.Parse
+//@ loop 1 (k rangeindex, cp data.IntSet, err parsley.Error)
+//@   invariant 0 <= k && k <= len(parsers)
+//@   invariant parsley.WfCtx(ctx) && parsley.WfCache(ctx) && parsley.InInput(ctx.Reader(), pos) && ghostIn(ctx, lrc, pos)
+//@   invariant data.Inv(cp) && errOK(ctx, err, pos)
+//@   invariant [PC1] k >= 1 && err == nil ==> parsley.GhostCurtailed
+
+//@ -- Any: every parser is tried, the results are merged (E4)
+//@ closure Any$1(ctx *parsley.Context, lrc data.IntMap, pos parsley.Pos) (n parsley.Node, cp data.IntSet, err parsley.Error)
+//@   captures (parsers []parsley.Parser)
+//@   requires len(parsers) >= 1 && forall k int :: 0 <= k && k < len(parsers) ==> parsers[k] != nil
+//@   include  parsley.Parser.Parse
+//@ loop 1 (k rangeindex, cp data.IntSet, res parsley.Node, err parsley.Error)
+//@   invariant 0 <= k && k <= len(parsers)
+//@   invariant parsley.WfCtx(ctx) && parsley.WfCache(ctx) && parsley.InInput(ctx.Reader(), pos) && ghostIn(ctx, lrc, pos)
+//@   invariant data.Inv(cp) && errOK(ctx, err, pos) && resOK(ctx, res, pos)
+//@   invariant [PC1] k >= 1 && res == nil && err == nil ==> parsley.GhostCurtailed
